@@ -124,13 +124,12 @@ def oracle(case, impl):
     return fl
 
 
-def kf_c04_nobits_gap(case, impl):
-    """A no-bits section with an explicit address that leaves a gap after the previous member of its segment:
-    the writer ignores the gap for no-bits sections, so the segment's memory size stops short of the section's end."""
-    p = case.meta.get("prog")
-    if p is None:
-        return False
-    hit = False
+def strip_save(f):
+    import re
+    return re.sub(r"^save \d+: ", "", f)
+
+
+def _gap_hit(p):
     for g in p.segments:
         mem = g["members"]
         for k, m in enumerate(mem):
@@ -138,16 +137,45 @@ def kf_c04_nobits_gap(case, impl):
             if s["type"] == 8 and s["addr"] is not None and k > 0:
                 prev = p.sections[mem[k - 1]]
                 if prev["addr"] is not None and s["addr"] > prev["addr"] + (0 if prev["type"] == 8 else prev["size"]):
-                    hit = True
-    fl = [strip_save(f) for f in oracle(case, impl)]
+                    return True
+    return False
+
+
+def _explain(p, f):
+    """which recorded finding accounts for one failure line of the oracle (None: none does)"""
+    import re
+    member = set(m for g in p.segments for m in g["members"])
+    m = re.match(r"^save (\d+): (aligned|distance|in-segment): section (\d+) ", f)
+    if m and int(m.group(1)) >= 2:
+        i = int(m.group(3)) - 2
+        if 0 <= i < len(p.sections) and i in member and p.sections[i]["addr"] is None:
+            sec = p.sections[i]
+            if sec["type"] == 8 and m.group(2) == "aligned":
+                return "nobits-unaligned-on-second-save"
+            if sec["type"] != 8 and sec["size"] == 0:
+                return "empty-member-unaligned-on-second-save"
+        return None
     # the ignored gap shows as a short memory size and, for a nested segment starting at that section, as a
     # file offset that does not follow the address (in every file saved from the object)
-    return hit and bool(fl) and all(f.startswith(("memsz: segment", "congruent: segment")) for f in fl)
+    if strip_save(f).startswith(("memsz: segment", "congruent: segment")) and _gap_hit(p):
+        return "nobits-explicit-gap-memsz"
+    return None
 
 
-def strip_save(f):
-    import re
-    return re.sub(r"^save \d+: ", "", f)
+def _kf(case, impl, name):
+    """every failure of the case is accounted for by a recorded C04 finding, and at least one by [name]"""
+    p = case.meta.get("prog")
+    if p is None:
+        return False
+    fl = oracle(case, impl)
+    ex = [_explain(p, f) for f in fl]
+    return bool(fl) and all(e is not None for e in ex) and name in ex
+
+
+def kf_c04_nobits_gap(case, impl):
+    """A no-bits section with an explicit address that leaves a gap after the previous member of its segment:
+    the writer ignores the gap for no-bits sections, so the segment's memory size stops short of the section's end."""
+    return _kf(case, impl, "nobits-explicit-gap-memsz")
 
 
 def kf_c04_nobits_second_save(case, impl):
@@ -156,25 +184,14 @@ def kf_c04_nobits_second_save(case, impl):
     object (address now recorded, no-bits excluded from the address-derived gap) does not - in the later file the
     section's offset is not a multiple of its alignment. Only failures of exactly that kind, in a save after the
     first, on such a section."""
-    import re
-    p = case.meta.get("prog")
-    if p is None:
-        return False
-    fl = oracle(case, impl)
-    if not fl:
-        return False
-    member = set(m for g in p.segments for m in g["members"])
-    for f in fl:
-        m = re.match(r"^save (\d+): aligned: section (\d+) ", f)
-        if not m or int(m.group(1)) < 2:
-            return False
-        i = int(m.group(2)) - 2
-        if not (0 <= i < len(p.sections)):
-            return False
-        sec = p.sections[i]
-        if not (sec["type"] == 8 and sec["addr"] is None and i in member):
-            return False
-    return True
+    return _kf(case, impl, "nobits-unaligned-on-second-save")
+
+
+def kf_c04_empty_second_save(case, impl):
+    """The same for an EMPTY data section that is an automatically addressed segment member with an alignment: in a
+    file saved after the first one its offset is no longer aligned / no longer at its memory distance (it occupies no
+    file space; C06 finding empty-member-padding-second-save)."""
+    return _kf(case, impl, "empty-member-unaligned-on-second-save")
 
 
 def nontrivial(case):
